@@ -870,6 +870,10 @@ async fn run(_tier: Tier) {
         queued = Some(f);
     }
     let mut outcome: Result<bool, String> = Ok(false); // Ok(finished?)
+    // Records behind the closing SOA, in the same message: the transfer has
+    // been committed by then, but the stream is not a valid transfer and the
+    // receiver has to say so.
+    let mut complained_after_finish = false;
     let mut batch_commits = 0u32; // BeginBatchDelete updates applied
     'msgs: for (mi, w) in delivered.iter().enumerate() {
         let msg = match Message::from_octets(Bytes::from(w.bytes.clone())) {
@@ -896,6 +900,7 @@ async fn run(_tier: Tier) {
                         outcome = Err(format!("iteration: {:?}", e));
                     } else {
                         sim::stat("probe.error_after_finished_transfer");
+                        complained_after_finish = true;
                     }
                     break 'msgs;
                 }
@@ -956,6 +961,10 @@ async fn run(_tier: Tier) {
         RefVerdict::Reject(w) => format!("Reject({})", w),
     });
     match (&outcome, &verdict) {
+        (Ok(true), RefVerdict::Complete(_, true)) if !complained_after_finish => {
+            sim::violation(P, "refinement", "records-behind-the-closing-soa-accepted-without-complaint".to_string(), format!("the last message of the transfer (fault {}) carries records behind the closing SOA; the library finished the transfer and reported nothing", fault));
+            return;
+        }
         (Ok(true), RefVerdict::Complete(c, _)) => {
             let want = walk_str(&content_as_walk(c));
             if seen != want {
